@@ -149,7 +149,7 @@ def wildcard_position_stratum(ctx, d, n):
 SPAN_ROWS = [("vfoo", ["0x8(%rax)", "0x10(%rbx)"]), ("mov", ["(%rax)", "%rbx"]), ("add", ["$0x8", "%rcx"]), ("lea", ["(%rcx,%rdx,8)", "%rsi"]),
              ("lea", ["0x10(%rbx)", "%rax"]), ("vbar", ["(%rsi)", "(%rdi)"]), ("vbar", ["(%rdi)", "(%rsi)"]), ("mov", ["0x8(%rax)", "%rdx"]),
              ("mov", ["%rdx", "0x18(%rax,%rcx,4)"]), ("mov", ["0x10(%rax)", "%ebx"]), ("add", ["%ebx", "%ecx"]), ("lea", ["(%rcx,%rdx,8)", "%rsi"]),
-             ("mov", ["(%rax,%rdi,8)", "%edx"]), ("ret", [])]
+             ("mov", ["(%rax,%rdi,8)", "%edx"]), ("imul", ["$0x3", "%ebx", "%ecx"]), ("vqux", ["%r8", "%r9", "%r10", "%r11"]), ("ret", [])]
 # (one-item rule, found?) - what "found" needs in the negative cells is an element reaching from one operand into the next one
 SPAN_CELLS = [({"vfoo": [{"$deref": {"main_reg": "&p", "constant_offset": "0x10"}}]}, False), ({"vfoo": [{"$deref": {"main_reg": "&p", "constant_offset": "0x8"}}]}, True),
               ({"vfoo": [{"$deref": {"main_reg": "rax", "constant_offset": "&k"}}, {"$deref": {"main_reg": "rbx", "constant_offset": "&j"}}]}, True),
@@ -157,6 +157,10 @@ SPAN_CELLS = [({"vfoo": [{"$deref": {"main_reg": "&p", "constant_offset": "0x10"
               ({"vbar": [{"$deref": {"main_reg": "&p"}}, {"$deref": {"main_reg": "rdi"}}]}, True), ({"vbar": [{"$deref": {"main_reg": "&p"}}, {"$deref": {"main_reg": "&p"}}]}, False),
               ({"mov": [{"$deref": {"main_reg": "&p", "constant_offset": "0x8"}}, "%rdx"]}, True), ({"mov": ["%rdx", {"$deref": {"main_reg": "&b", "register_multiplier": "&i", "constant_multiplier": 4, "constant_offset": "&k"}}]}, True),
               ({"mov": [{"$deref": {"main_reg": "&b", "register_multiplier": "rcx", "constant_multiplier": 4, "constant_offset": "0x18"}}]}, False),
+              # a name stands for ONE operand also when the item after it would fit a later operand
+              ({"imul": ["&first", "%ecx"]}, False), ({"imul": ["&first", "%ebx"]}, True), ({"imul": ["&first", "&second", "%ecx"]}, True), ({"imul": ["&first", "&first"]}, False),
+              ({"vqux": ["&a", "%r10"]}, False), ({"vqux": ["&a", "&b", "%r11"]}, False), ({"vqux": ["%r8", "&b", "&c", "%r11"]}, True), ({"vqux": ["&a", "%r9", "&c", "&d"]}, True),
+              ({"vqux": ["&genreg-x", "%r9"]}, False),
               # degenerate shapes (their reading is C06's subject): whatever they match is one record of one instruction
               ({"mov": [{"$deref": {"main_reg": "rax", "constant_multiplier": 8}}]}, None), ({"mov": [{"$deref": {"constant_multiplier": 8}}]}, None),
               ({"lea": [{"$deref": {"register_multiplier": "rdx"}}]}, None), ({"mov": [{"$deref": {"main_reg": "&p", "constant_multiplier": 8}}]}, None),
@@ -190,7 +194,7 @@ def operand_span_stratum(ctx, ws):
         if bad:
             ctx.disagreement(case, f"a one-item rule on `{mn}` reports a hit that is not one `{mn}` record: {bad[0][:200]!r} | regex={str(res[2])[:400]}")
         elif want is not None and bool(res[1]) != want:
-            ctx.disagreement(case, f"one-item rule {item}: expected {'found' if want else 'not found'} (each $deref stands for ONE operand), got {str(res[1])[:200]} | regex={str(res[2])[:400]}")
+            ctx.disagreement(case, f"one-item rule {item}: expected {'found' if want else 'not found'} (each operand item stands for ONE operand), got {str(res[1])[:200]} | regex={str(res[2])[:400]}")
 
 
 def replay_span(ctx, case):
